@@ -54,11 +54,12 @@ FILE_MUTS = {
     "mod:gone": lambda files: [files.pop(k) for k in list(files) if k == "fxpkg/gone.py"],
     "mod:sub": lambda files: [files.pop(k) for k in list(files) if k.startswith("fxpkg/sub/")],
     "top": lambda files: files.__setitem__("fxpkg/__init__.py", ""),
+    "mod:fxtop": lambda files: [files.pop(k) for k in list(files) if k == "fxtop.py"],
     "broken": lambda files: files.__setitem__("fxpkg/broken.py", "def broken_f(x):\n    return x +\n"),
 }
 
 BLOCK_MUTS = [n for n, _, m in MOD_BLOCKS + K_BLOCKS + KINDS_BLOCKS if m is not None]
-ALL_MUTS = BLOCK_MUTS + ["mod:gone", "mod:sub", "top"]          # "broken" is outside the property
+ALL_MUTS = BLOCK_MUTS + ["mod:gone", "mod:sub", "top", "mod:fxtop"]          # "broken" is outside the property
 TARGET = "fxpkg.mod"
 
 
@@ -80,6 +81,7 @@ def files_for(muts):
         "fxpkg/sub/__init__.py": "",
         "fxpkg/sub/leaf.py": "class L:\n    pass\n\n\ndef leaf_f(x):\n    return x\n",
         "fxpkg/broken.py": "def broken_f(x):\n    return x\n",
+        "fxtop.py": "class T:\n    pass\n\n\ndef tf(x):\n    return x\n\n\ndef tf2(x, y):\n    return y\n",
         "fxpkg/mod.py": MOD_HEADER + "\n\n" + _blocks(MOD_BLOCKS, muts, "\n\n") + "\n\nclass K:\n"
                         + _blocks(K_BLOCKS, muts, "\n"),
     }
@@ -92,9 +94,11 @@ def files_for(muts):
 def write_tree(root, muts):
     """(Re)create <root>/fxpkg for the given set of mutations: the package is really changed on disk."""
     shutil.rmtree(os.path.join(root, "fxpkg"), ignore_errors=True)
+    if os.path.exists(os.path.join(root, "fxtop.py")):
+        os.remove(os.path.join(root, "fxtop.py"))
     for rel, text in files_for(muts).items():
         p = os.path.join(root, rel)
-        os.makedirs(os.path.dirname(p), exist_ok=True)
+        os.makedirs(os.path.dirname(p) or root, exist_ok=True)
         with open(p, "w") as f:
             f.write(text)
 
@@ -127,6 +131,11 @@ STALE_BY = {
     "gonemod_cls": ("mod:gone", "NameLookupError", "argument class removed"),
     "subcls": ("mod:sub", "NameLookupError", "return class removed"),
     "gone_g": ("mod:gone", "NameLookupError", "module removed"),
+    "gone_g2": ("mod:gone", "NameLookupError", "module removed"),
+    "top_tf": ("mod:fxtop", "NameLookupError", "module removed"),
+    "top_tf2": ("mod:fxtop", "NameLookupError", "module removed"),
+    "topcls": ("mod:fxtop", "NameLookupError", "argument class removed"),
+    "leaf_f2": ("mod:sub", "NameLookupError", "submodule removed"),
     "leaf_f": ("mod:sub", "NameLookupError", "submodule removed"),
     "top": ("top", "NameLookupError", "function removed"),
 }
@@ -162,3 +171,19 @@ def kind_of(tag, muts):
     if tag == "params" and "f_params" in muts:
         return PARAMS_TAG[2]
     return "valid"
+
+
+def copy_tree(src_root, dst_root):
+    """copy the (possibly mutated) fixture from one root to another"""
+    shutil.copytree(os.path.join(src_root, "fxpkg"), os.path.join(dst_root, "fxpkg"))
+    if os.path.exists(os.path.join(src_root, "fxtop.py")):
+        shutil.copy(os.path.join(src_root, "fxtop.py"), os.path.join(dst_root, "fxtop.py"))
+
+
+def source_file(root, module):
+    """the file `apply <module>` rewrites, or None when the module is not there"""
+    base = os.path.join(root, *module.split("."))
+    for p in (base + ".py", os.path.join(base, "__init__.py")):
+        if os.path.isfile(p):
+            return p
+    return None
